@@ -71,6 +71,8 @@ class Extract:
         self.optional = False
         self.strip_attrs = False
         self.sig_rewrites = []
+        self.lift = None  # (n, signature): this extract is the body of the n-th closure of the anchor item, lifted to a named fn
+        self.closure_repl = []  # (n, text): the n-th closure expression of the item is replaced by text (its body is verified by a lifted extract)
 
 
 def _parse_unit(text, base_dir=None):
@@ -132,7 +134,8 @@ def _parse_unit(text, base_dir=None):
                     ma = re.match(r"`(.*)`\s*:?\s*$", rest)
                     if not ma:
                         raise ValueError("bad %s directive: %r" % (k, l2))
-                    (ex.before if k == "before" else ex.after).append((ma.group(1), []))
+                    (ex.before if k == "before" else ex.after).append(
+                        (ma.group(1).replace("\\n", "\n").replace("\\t", "\t"), []))
                     cur = (k, None)
                 elif k == "rewrite" or k == "sigrewrite":
                     ma = re.match(r"`(.*)` => `(.*)`(?:\s+x(\d+|\?))?\s*$", rest)
@@ -141,6 +144,15 @@ def _parse_unit(text, base_dir=None):
                     unesc = lambda t: t.replace("\\n", "\n").replace("\\t", "\t")
                     (ex.rewrites if k == "rewrite" else ex.sig_rewrites).append(
                         (unesc(ma.group(1)), unesc(ma.group(2)), -1 if ma.group(3) == "?" else int(ma.group(3) or 1)))
+                    cur = None
+                elif k == "closure":
+                    ma = re.match(r"(\d+)\s+(lifted_as|replaced_by)\s+`(.*)`\s*$", rest)
+                    if not ma:
+                        raise ValueError("bad closure directive: %r" % l2)
+                    if ma.group(2) == "lifted_as":
+                        ex.lift = (int(ma.group(1)), ma.group(3))
+                    else:
+                        ex.closure_repl.append((int(ma.group(1)), ma.group(3)))
                     cur = None
                 elif k == "strip_logs":
                     ex.strip_logs = True
@@ -269,6 +281,26 @@ def _find_loops(msk_body):
     return res
 
 
+def _find_closures(text):
+    """(start, body_open, body_close) of each block-bodied closure `|args| { .. }` in textual order"""
+    msk = mask(text)
+    res = []
+    for m in re.finditer(r"\|[A-Za-z0-9_,&: ]*\|\s*\{", msk):
+        bo = m.end() - 1
+        depth = 0
+        k = bo
+        while k < len(msk):
+            if msk[k] == "{":
+                depth += 1
+            elif msk[k] == "}":
+                depth -= 1
+                if depth == 0:
+                    break
+            k += 1
+        res.append((m.start(), bo, k))
+    return res
+
+
 def transform(ex, src):
     """Apply T1..T6 to the item named by ex.anchor in Source src.  Returns (text, record)."""
     it = src.find(ex.anchor)
@@ -277,6 +309,25 @@ def transform(ex, src):
               "lines": [src.line_of(it.start), src.line_of(it.body_close)],
               "sha256": sha256_text(orig), "transformations": []}
     text = orig
+    if ex.lift:
+        # T7: the n-th closure of the item becomes a named function with the given signature; its body text is unchanged
+        cl = _find_closures(text)
+        n, lsig = ex.lift
+        if n < 1 or n > len(cl):
+            raise LostAnchor("%s: closure %d not found (%d closures)" % (ex.anchor, n, len(cl)))
+        st, bo, bc = cl[n - 1]
+        record["lines"] = [src.line_of(it.start + st), src.line_of(it.start + bc)]
+        record["sha256"] = sha256_text(text[st:bc + 1])
+        record["transformations"].append("T7 closure %d (%s) lifted to `%s`; captured variables become parameters" % (n, text[st:bo].strip(), lsig))
+        text = lsig + " " + text[bo:bc + 1]
+    elif ex.closure_repl:
+        cl = _find_closures(text)
+        for n, rep in sorted(ex.closure_repl, key=lambda x: -x[0]):
+            if n < 1 or n > len(cl):
+                raise LostAnchor("%s: closure %d not found (%d closures)" % (ex.anchor, n, len(cl)))
+            st, bo, bc = cl[n - 1]
+            text = text[:st] + rep + text[bc + 1:]
+            record["transformations"].append("T7 closure %d replaced by %r (its body is verified separately as a lifted function)" % (n, rep))
     if ex.verbatim or it.kind != "fn":
         text = re.sub(r"\bpub\s*\(\s*crate\s*\)", "pub", text)
         for old, new, cnt in ex.rewrites:
@@ -304,9 +355,15 @@ def transform(ex, src):
                 record["transformations"].append("T6 %r => %r x%d (optional)" % (old, new, text.count(old)))
                 text = text.replace(old, new)
             continue
-        if text.count(old) != cnt:
-            raise LostAnchor("%s: rewrite anchor %r occurs %d times, expected %d" %
-                             (ex.anchor, old, text.count(old), cnt))
+        have = text.count(old)
+        if have != cnt:
+            # The adaptation applies wherever its pattern occurs.  A pattern that is gone (or occurs more
+            # often) is NOT a lost anchor: the function text is still the real one, Verus decides it as it
+            # stands -- a removed check then fails its postcondition instead of hiding behind exit 2.
+            record["transformations"].append("T6 %r => %r x%d (unit expected x%d)" % (old, new, have, cnt))
+            record.setdefault("rewrite_drift", []).append("%r: expected %d, found %d" % (old, cnt, have))
+            text = text.replace(old, new)
+            continue
         text = text.replace(old, new)
         record["transformations"].append("T6 %r => %r x%d" % (old, new, cnt))
     msk = mask(text)
@@ -412,7 +469,7 @@ def generate(unit_path, repo=REPO, canary=None):
                 raise LostAnchor("source file %s missing" % ex.path)
             if p not in sources:
                 sources[p] = Source(p)
-            if canary and canary[0] == ex.anchor.split("::")[-1].replace("fn ", "").strip():
+            if canary and not ex.lift and canary[0] == ex.anchor.split("::")[-1].replace("fn ", "").strip():
                 ex.clauses["ensures"] = ex.clauses.get("ensures", "") + canary[1].rstrip(",") + ",\n"
             if ex.optional:
                 try:
@@ -566,7 +623,8 @@ def run_unit(prop, unit_path, tier, seed=0, repo=REPO):
                 cj = json.loads(c_out[c_out.index("{"):])
                 cerr = cj["verification-results"].get("errors", 0)
             except Exception:
-                cerr = 0
+                undecided.append("canary %s: verus produced no verification result (front-end error in the canary clause?)" % cfn)
+                continue
             if cerr < 1:
                 undecided.append("VACUITY: canary clause %r on %s was accepted -- contracts are vacuous" % (clause, cfn))
             else:
